@@ -25,15 +25,15 @@ RULE = ('A case is one seeded bgzipped+tabix-indexed VCF (1..4 contigs, 1..4 sam
         'use_cache and not lazyLoad; distinct = distinct (history prefix) digests among those.')
 ASSUMPTIONS = [
     'VCFs are well formed, bgzipped and tabix-indexed (the non-indexed "ugly" parser is outside the statement)',
-    'no I/O faults on the cache directory (the property does not quantify over them)',
+    'the only faults injected are a kill at a line of write_cache or a file-size limit (EFBIG) during a cache-writing lifetime: the statement promises that later runs reading the cache agree with the VCF, and only durable state survives a lifetime; read errors on the cache are not injected',
     'sample names are plain identifiers (no commas or dashes), positions are unique per contig',
     'the sentinel position -1 is never queried',
 ]
 COMPONENTS = {
     'real': ['AlleleResolver.__init__ flag handling', 'fetchChromosome', 'write_cache/read_cached', 'getAllelesAt', 'has_location', 'pysam.VariantFile/tabix', 'cache files on a real file system (scratch)'],
-    'stub': [],
+    'stub': ['crash injector for cache-writing lifetimes: forked child, sys.settrace line events inside write_cache with os._exit(137), or RLIMIT_FSIZE'],
 }
-REQUIRED_PROBES = ['cache_file_read_in_later_lifetime', 'evicted_contig_revisited', 'cache_without_lazy', 'absent_contig_query', 'nonempty_answer', 'config_changed_between_lifetimes']
+REQUIRED_PROBES = ['lifetime_died_while_writing_cache', 'cache_file_read_in_later_lifetime', 'evicted_contig_revisited', 'cache_without_lazy', 'absent_contig_query', 'nonempty_answer', 'config_changed_between_lifetimes']
 BASES = 'ACGT'
 
 
@@ -128,6 +128,14 @@ def generate(seed, tier):
                     base = h.choice(BASES)
                 queries.append([contigs[ci][0], max(0, pos0), base, h.choice(['get', 'get', 'has'])])
         lifetimes.append({'lazy': lazy, 'cache': cache, **cfg, 'queries': queries})
+    if st.faults.random() < 0.3:
+        # a lifetime that dies (kill at a line of write_cache) or hits a file-size limit (EFBIG) WHILE it writes the cache;
+        # only what is on disk survives; the lifetimes after it must still answer like the eager resolver
+        i = st.faults.randrange(len(lifetimes))
+        victim = dict(lifetimes[i], lazy=True, cache=True)
+        victim['crash'] = st.faults.choice([{'kind': 'kill', 'k': st.faults.randint(0, 12)}, {'kind': 'fsize', 'bytes': st.faults.choice([1, 20, 40, 64, 100])}])
+        lifetimes.insert(i, victim)
+        lifetimes.insert(i + 1, dict(lifetimes[i + 1], lazy=True, cache=True))
     return {'params': {}, 'vcf': {'contigs': contigs, 'samples': samples, 'records': records}, 'lifetimes': lifetimes}
 
 
@@ -185,6 +193,45 @@ def _model(vcf, cfg, chrom, pos0, base):
     return sorted(carried.get(base)) if base in carried else None
 
 
+def _crashing_lifetime(path, cfg, life, mk):
+    """run one lifetime in a forked child that is killed inside write_cache (k-th line) or runs under RLIMIT_FSIZE"""
+    import sys
+    pid = os.fork()
+    if pid == 0:
+        try:
+            dn = os.open(os.devnull, os.O_WRONLY)
+            os.dup2(dn, 1)
+            os.dup2(dn, 2)
+            c = life['crash']
+            if c['kind'] == 'fsize':
+                import resource
+                import signal
+                signal.signal(signal.SIGXFSZ, signal.SIG_IGN)
+                resource.setrlimit(resource.RLIMIT_FSIZE, (c['bytes'], c['bytes']))
+            else:
+                n = [0]
+
+                def local(frame, event, arg):
+                    if event == 'line':
+                        if n[0] == c['k']:
+                            os._exit(137)
+                        n[0] += 1
+                    return local
+
+                def glob(frame, event, arg):
+                    return local if frame.f_code.co_name == 'write_cache' else None
+                sys.settrace(glob)
+            ar = mk(path, cfg, True, True)
+            for (chrom, pos, base, kind) in life['queries']:
+                try:
+                    ar.getAllelesAt(chrom, pos, base) if kind == 'get' else ar.has_location(chrom, pos)
+                except Exception:
+                    pass
+        finally:
+            os._exit(0)
+    os.waitpid(pid, 0)
+
+
 def execute(case):
     import io
     import contextlib
@@ -192,6 +239,7 @@ def execute(case):
     log = EventLog(case.get('run_seed'))
     vcf = case['vcf']
     viol, probes, sigs = [], {}, []
+    faults_fired = {}
 
     def probe(k, n=1):
         probes[k] = probes.get(k, 0) + n
@@ -225,6 +273,12 @@ def execute(case):
             cache_before = set(os.listdir(cache_dir)) if os.path.isdir(cache_dir) else set()
             if life['cache'] and not life['lazy']:
                 probe('cache_without_lazy')
+            if life.get('crash'):
+                _crashing_lifetime(path, cfg, life, mk)
+                probe('lifetime_died_while_writing_cache')
+                faults_fired[life['crash']['kind']] = faults_fired.get(life['crash']['kind'], 0) + 1
+                log.add('life', li, 'crashed', life['crash'])
+                continue
             try:
                 ar = mk(path, cfg, life['lazy'], life['cache'])
             except Exception as e:
@@ -277,7 +331,7 @@ def execute(case):
                 probe('evicted_contig_revisited')
             log.add('life', li, sorted(cache_after))
             sigs.append((log.digest()[:16], used_cache or (revisit and life['lazy']) or (life['cache'] and not life['lazy'])))
-    return {'violations': viol, 'digest': log.digest(), 'probes': probes, 'faults': {}, 'evals': len(case['lifetimes']),
+    return {'violations': viol, 'digest': log.digest(), 'probes': probes, 'faults': faults_fired, 'evals': len(case['lifetimes']),
             'sigs': sigs, 'steps': log.n, 'nontrivial': any(s[1] for s in sigs)}
 
 
